@@ -14,6 +14,9 @@ RULES = [
  ("C01", "C01|recon-mismatch:zero-recon|*16BP*", "is_16bit_pipeline=1 with 8-bit input: the recon output of non-reference pictures is all zero"),
  ("C01", "C01|recon-mismatch:*|*16BP*", "is_16bit_pipeline=1 with 8-bit input: recon output does not match the decoded picture"),
  ("C01", "C01|recon-mismatch:few|*GRAIN*", "film grain with rate control: a handful of recon samples differ from the grain-synthesised decoder output"),
+ ("C01", "C01|recon-mismatch:*|*SRES*", "superres: the recon output differs from the decoded (upscaled) picture by some samples"),
+ ("C01", "C01|decode-error|*|*MINQ0*", "rate control with min_qp_allowed=0: frames are coded with base_q_idx 0 (which AV1 defines as lossless) using the lossy syntax; libaom/dav1d reject the stream ('Invalid length in read_golomb')"),
+ ("C03", "C03|decode-count|*MINQ0*", "same root cause as C01 MINQ0: the stream does not decode"),
  ("C03", "C03|decode-count|*TPL0*SB128*", "same root cause as C01 TPL0+SB128: libaom rejects the key frame, so fewer pictures decode than were submitted"),
  ("C02", "C02|seq-differs|*GRAIN*", "film grain: the in-band sequence headers of different key frames differ (film_grain_params_present toggles)"),
  ("C19", "C19|idr-not-shown-key|P0|*", "intra_period_length=0 with intra_refresh_type=2: frames after the first are coded as INTRA_ONLY frames, not as shown key frames"),
